@@ -40,7 +40,16 @@ class Ctx:
             return getattr(self, "_" + key.replace("-", "_"))
         out = self.path(key)
         env = dict(os.environ, **GOENV)
-        cmd = ["go", "build", "-tags", "verif"] + (["-race"] if race else []) + ["-o", out, "."]
+        cmd = ["go", "build", "-tags", "verif"] + (["-race"] if race else [])
+        if os.path.realpath(REPO) != "/repo":
+            # build against another tree (self-test in a scratch worktree): same module, replace directive redirected
+            mf = self.path("alt.mod")
+            if not os.path.exists(mf):
+                txt = open(os.path.join(VERIF, "harness", "go.mod")).read().replace("=> /repo", "=> " + os.path.realpath(REPO))
+                open(mf, "w").write(txt)
+                shutil.copy(os.path.join(VERIF, "harness", "go.sum"), self.path("alt.sum"))
+            cmd += ["-modfile", mf]
+        cmd += ["-o", out, "."]
         p = subprocess.run(cmd, cwd=os.path.join(VERIF, "harness"), env=env, capture_output=True, text=True)
         if p.returncode != 0:
             raise Inconclusive("harness build failed:\n" + p.stdout + p.stderr)
@@ -201,17 +210,26 @@ def open_keys(prop):
 
 
 # ---- evidence + verdict ---------------------------------------------------------------
+def evidence_dir():
+    # runs against another tree (self-test worktrees) must not overwrite the evidence of the real tree
+    if os.path.realpath(REPO) != "/repo":
+        d = os.path.join(tempfile.gettempdir(), "vf-selftest-evidence")
+        os.makedirs(d, exist_ok=True)
+        return d
+    return os.path.join(VERIF, "evidence")
+
+
 def write_evidence(ctx, level, coverage, assumptions, violations):
-    os.makedirs(os.path.join(VERIF, "evidence"), exist_ok=True)
+    os.makedirs(evidence_dir(), exist_ok=True)
     ev = {"property_id": ctx.prop, "tier": ctx.tier, "seed": ctx.seed, "level": level,
           "coverage": coverage, "assumptions": assumptions,
           "wall_s": round(time.time() - ctx.t0, 2), "violations": violations}
-    with open(os.path.join(VERIF, "evidence", ctx.prop + ".json"), "w") as f:
+    with open(os.path.join(evidence_dir(), ctx.prop + ".json"), "w") as f:
         json.dump(ev, f, indent=1)
 
 
 def save_replay(ctx, name, obj):
-    d = os.path.join(VERIF, "evidence", "replay")
+    d = os.path.join(evidence_dir(), "replay")
     os.makedirs(d, exist_ok=True)
     p = os.path.join(d, "%s-%s-%s.json" % (ctx.prop, ctx.seed, name))
     with open(p, "w") as f:
